@@ -524,6 +524,7 @@ func mapsEqual(a, b map[string]string) bool {
 
 func Run(tier string) int {
 	convBin := filepath.Join(mc.VerifDir, "bin", "vconv")
+	ConverterBin = convBin
 	budget := 110 * time.Second
 	if tier == "thorough" {
 		budget = 14 * time.Minute
